@@ -192,8 +192,8 @@ func vpTreeEq(got any, want *vpTree) bool {
 		return ok && s == want.s
 	case 1:
 		l, ok := got.([]any)
-		if !ok || len(l) != len(want.items) {
-			return false
+		if !ok || l == nil || len(l) != len(want.items) {
+			return false // an empty sequence is an empty list, not a nil one (JSON would write null)
 		}
 		for i := range l {
 			if !vpTreeEq(l[i], want.items[i]) {
@@ -410,7 +410,7 @@ func vpH_c07_reexpand() {
 	// m: &m {b: x, a: y}   (two keys, not in sorted order)
 	m := vpMapping()
 	m.Anchor = "m"
-	m.Content = append(m.Content, vpScalar("b"), vpScalar("x"), vpScalar("a"), vpScalar("y"))
+	m.Content = append(m.Content, vpScalar("b"), vpScalar("x"), vpScalar("a"), vpScalar("y"), vpScalar("e"), vpSeq(), vpScalar("f"), vpMapping())
 	// inner: an anchored node that refers to m
 	var inner *yaml.Node
 	switch vpInt(0, 3) {
